@@ -17,7 +17,7 @@ def describe(tier):
         "null / alternating union members) x destination {same buffer, other buffer of the same context, buffer of another context, _context only, other "
         "buffer kind}: T(src, ...) must read back equal, leave the source equal, occupy storage disjoint from the source; references alias the same referent "
         "in the same buffer and resolve to live duplicates inside the copy's buffer otherwise; then every single write (depth 1; thorough: every pair, depth 2) "
-        "of a leaf on either side (also through references) must show only where the model says (shared referents in the same buffer, nowhere else).",
+        "of a leaf on either side (also through references) must show only where the model says (shared referents in the same buffer, nowhere else), and a copy made afterwards from either handle must equal what that handle reads now.",
         bounds=dict(types=len(types_for(tier)), dests=DESTS, values=VMODES, write_depth=1 if tier == "quick" else 2, max_leaf_positions=8),
         assumptions=["sharing between two references inside one source object is not part of the enumerated values"],
         must_fire=["copy", "write-src", "write-copy"],
@@ -194,6 +194,17 @@ def check_after_write(p, res):
         return ("C09.independent", "source-side-wrong-after-write", "first difference at %r: %s" % xt.vdiff(gs, p.msrc))
     if not xt.veq(gc, p.mcopy):
         return ("C09.independent", "copy-side-wrong-after-write", "first difference at %r: %s" % xt.vdiff(gc, p.mcopy))
+    # copies made NOW from the same two handles (the source handle has been copied from before; nothing remembered
+    # from that first copy may leak into this one)
+    for side, h, m in (("src", p.src, p.msrc), ("copy", p.copy, p.mcopy)):
+        try:
+            c2 = xt.construct(p.t, h, **dest_kwargs(p.dest, p.sb))
+            g2 = xt.read(p.t, c2)
+        except Exception as e:
+            return ("C09.equal", "second-copy-raises:" + common.exc_failure(e), "copy of the %s handle after the writes: %r" % (side, e))
+        res.oracles["equal"] += 1
+        if not xt.veq(g2, m):
+            return ("C09.equal", "second-copy-differs", "copy made from the %s handle after the writes: first difference at %r: %s" % ((side,) + xt.vdiff(g2, m)))
     return None
 
 
